@@ -236,23 +236,23 @@ def codec_family(ctx, n_quick, n_thorough, mc_cfgs_quick=("default",), extra_cov
 
 
 def plan_C01(ctx):
-    return codec_family(ctx, 6000, 100000)
+    return codec_family(ctx, 6000, 40000)
 
 
 def plan_C02(ctx):
-    return codec_family(ctx, 6000, 100000)
+    return codec_family(ctx, 6000, 40000)
 
 
 def plan_C05(ctx):
-    return codec_family(ctx, 6000, 100000)
+    return codec_family(ctx, 6000, 40000)
 
 
 def plan_C09(ctx):
-    return codec_family(ctx, 6000, 100000)
+    return codec_family(ctx, 6000, 40000)
 
 
 def plan_C13(ctx):
-    return codec_family(ctx, 6000, 100000)
+    return codec_family(ctx, 6000, 40000)
 
 
 def plan_C16(ctx):
@@ -321,7 +321,7 @@ def plan_C16(ctx):
 
 
 def plan_C14(ctx):
-    return codec_family(ctx, 6000, 100000)
+    return codec_family(ctx, 6000, 40000)
 
 
 def decode_family(ctx, kinds, n_quick, n_thorough, with_codec_sessions=False):
@@ -390,7 +390,7 @@ def c11_extra(ctx):
     """C11 beyond the catalogue histories: (a) on random types, every single Marshal leaves its argument alone (TraceCodec's C11 verdict);
     (b) concurrent decodes through one interning codec, the callers overwriting their input buffers afterwards (TraceSched's C11 verdict)."""
     import random, fam_sched
-    n = 3000 if ctx.quick else 60000
+    n = 3000 if ctx.quick else 30000
     pc = fam_codec.gen_random(ctx.pvh, ctx.work, n, ctx.seed + 11, cfg="mix", kind="codec", idbase=9000000, tag="c11codec")
     ctx.case_files.append(pc)
     tc = fam_codec.run_cases(ctx.pvh, pc, ctx.work, "c11codec")
@@ -428,7 +428,7 @@ def c11_extra(ctx):
 def system_family(ctx, catname="MCCat", quick_idx="QuickIdx", relabel=None, extra_inv="", sweep=True, extra=None):
     """C06 / C11 / C17 / C19: histories generated from PlencSystem (exhaustive short ones + random long ones) replayed and validated by TraceSystem."""
     ctx.build()
-    base = "  Env <- MCEnv\n  Cat <- %s\n  GenIdx <- %s\n" % (catname, quick_idx if ctx.quick else "AllIdx")
+    base = "  Env <- MCEnv\n  Cat <- %s\n  GenIdx <- %s\n" % (catname, quick_idx if ctx.quick else quick_idx.replace("Quick", "Thorough"))
     # 1. design check: deeper, fingerprinting only the observable state (VIEW), action properties
     depth = 4 if ctx.quick else 5
     cfg = ("CONSTANTS\n%s  Bufs = {\"b1\"}\n  MaxSteps = %d\n  Emit = FALSE\nSPECIFICATION SysSpec\nVIEW View\n"
@@ -465,7 +465,7 @@ def system_family(ctx, catname="MCCat", quick_idx="QuickIdx", relabel=None, extr
                                       spec="SysSpec")
     ctx.add_mc(st2)
     # 3. longer random histories on two buffers, drawn by the harness over the same catalogue (code -> spec direction)
-    nsim = 4000 if ctx.quick else 150000
+    nsim = 4000 if ctx.quick else 60000
     log("MCSystem: design %d states; %d exhaustive histories; %d random histories" % (st["distinct"], len(cases), nsim))
     sim = []
     # 4. capacity sweep: every spare capacity 0..460 x prefix {0, 3 bytes} for every item, then a second marshal into the grown buffer
@@ -882,7 +882,7 @@ def plan_C07(ctx):
     fam_codec.write_cases(stress, p2, 5000000)
     # 3. the same executions under the race detector: a sample of the schedules and the free-running stress
     racebin = vlib.build_harness(ctx.work + "/race", race=True)
-    sample = cases[::7] if ctx.quick else cases[::3]
+    sample = cases[::7] if ctx.quick else cases[::25]
     p3 = os.path.join(ctx.work, "race_cases.ndjson")
     fam_codec.write_cases(sample + stress, p3, 7000000)
     ctx.case_files = [p1, p2, p3]
@@ -947,11 +947,11 @@ def plan_C11(ctx):
 
 
 def plan_C03(ctx):
-    return decode_family(ctx, ["evolve"], 5000, 100000)
+    return decode_family(ctx, ["evolve"], 5000, 50000)
 
 
 def plan_C10(ctx):
-    return decode_family(ctx, ["merge", "evolve"], 4000, 60000, with_codec_sessions=True)
+    return decode_family(ctx, ["merge", "evolve"], 4000, 30000, with_codec_sessions=True)
 
 
 def plan_C18(ctx):
@@ -984,7 +984,7 @@ def plan_C18(ctx):
 
 
 def plan_C12(ctx):
-    return codec_family(ctx, 6000, 200000, mc_cfgs_quick=("both", "pa"), rnd_cfg="mix")
+    return codec_family(ctx, 6000, 40000, mc_cfgs_quick=("both", "pa"), rnd_cfg="mix")
 
 
 PLANS = {"C07": plan_C07, "C20": plan_C20, "C19": plan_C19, "C17": plan_C17, "C16": plan_C16, "C13": plan_C13, "C15": plan_C15, "C08": plan_C08, "C04": plan_C04, "C06": plan_C06, "C11": plan_C11, "C03": plan_C03, "C10": plan_C10, "C18": plan_C18, "C12": plan_C12, "C01": plan_C01, "C02": plan_C02, "C05": plan_C05, "C09": plan_C09, "C14": plan_C14}
